@@ -206,10 +206,13 @@ def finish(pid, tier, seed, merged, plan, t0, rundir):
         print(f'KNOWN-FINDING: property={pid} {kf[v["sig"]]["what"]} [signature={v["sig"]} seen={v["count"]}]')
     rc = 0
     for n, v in enumerate(unlisted):
+        if n >= 8:
+            print(f'  ... and {len(unlisted) - 8} more violation signature(s), see {rundir}')
+            break
         path = os.path.join(rundir, f'violation-{n}.json')
         with open(path, 'w') as f:
             json.dump({'property': pid, 'tier': tier, 'seed': seed, **v}, f, indent=1, ensure_ascii=False)
-        print(f'  violation: {v["sig"]} x{v["count"]}: {v["what"][:600]}')
+        print(f'  violation: {v["sig"]} x{v["count"]}: {v["what"][:400]}')
         print(f'VIOLATION property={pid} replay={path}')
         rc = 1
     if rc == 0 and merged.inconclusive:
